@@ -302,21 +302,28 @@ Proof. exact gen_grow_len_pow2. Qed.
 Print Assumptions gen_grow_len_pow2_tie.
 
 (* 15. The Go functions themselves, as srcgen translates them on every run
-       (Gen.C16: primaryIndex, getSegmentIndex, the loop of backwardShiftDelete, the
-       probe loop of Get), compute what the model's hidx / go_sidx / bshift / scan
-       compute, on every slot array of power-of-two length (fuel >= len for the
-       loops).  Editing those functions in /repo re-checks these. *)
+       (Gen.C16: primaryIndex, getSegmentIndex, backwardShiftDelete, EvictKeysAt, Del
+       as whole functions with the receiver handed back, the probe loop of Get),
+       compute what the model's hidx / go_sidx / bshift / tevict / tdel / scan compute,
+       on every table with a power-of-two slot array (gotab p t : the Go struct for the
+       model table t; fuel > len (+ n for EvictKeysAt); "t_bad … = false": the model
+       stayed inside its faithful envelope, which wf_preserved guarantees for every
+       reachable table).  Editing those functions in /repo re-checks these. *)
 Theorem translated_code_is_model : forall p, p <= 62 ->
   (forall m k, T_UInt64Map_mask m = (Z.of_nat (2 ^ p) - 1)%Z ->
      go_UInt64Map_primaryIndex m k = Z.of_nat (hidx go_mix (2 ^ p) k)) /\
   (forall m k, T_SegmentUInt64Map_segmentMask m = (Z.of_nat (2 ^ p) - 1)%Z ->
      go_SegmentUInt64Map_getSegmentIndex m k = N.of_nat (go_sidx (2 ^ p) k)) /\
   (forall fuel d i sz ga hz zv, length d = 2 ^ p -> i < 2 ^ p ->
-     let r := go_UInt64Map_backwardShiftDelete_loop1_run fuel (gomap d sz ga hz zv) 0%N (Z.of_nat i) in
-     match bshift go_mix fuel d (2 ^ p) i i with
-     | Some d' => fst r = GoNext /\ exists i' j', snd r = (gomap d' sz ga hz zv, 0%N, Z.of_nat i', Z.of_nat j')
-     | None => fst r = GoOof
-     end) /\
+     go_UInt64Map_backwardShiftDelete fuel (gom p d sz ga hz zv) (Z.of_nat i) =
+     match bshift go_mix fuel d (2 ^ p) i i with Some d' => Some (gom p d' sz ga hz zv) | None => None end) /\
+  (forall fuel t off nmax skip, length (t_data t) = 2 ^ p -> 2 ^ p + Z.to_nat nmax < fuel ->
+     t_bad (fst (tevict go_mix t off nmax skip)) = false ->
+     go_UInt64Map_EvictKeysAt fuel (gotab p t) off nmax skip =
+     Some (snd (tevict go_mix t off nmax skip), gotab p (fst (tevict go_mix t off nmax skip)))) /\
+  (forall fuel t k, length (t_data t) = 2 ^ p -> 2 ^ p < fuel ->
+     t_bad (fst (tdel go_mix t k)) = false ->
+     go_UInt64Map_Del fuel (gotab p t) k = Some (snd (tdel go_mix t k), gotab p (fst (tdel go_mix t k)))) /\
   (forall fuel d k idx sz ga hz zv, length d = 2 ^ p -> idx < 2 ^ p -> k <> 0%N -> 2 ^ p <= fuel ->
      let r := go_UInt64Map_Get_loop1_run fuel (gomap d sz ga hz zv) k (Z.of_nat idx) in
      match scan (stop_key k) (2 ^ p - 1) d (2 ^ p) (nxt (2 ^ p) idx) with
@@ -324,19 +331,23 @@ Theorem translated_code_is_model : forall p, p <= 62 ->
      | None => fst r = GoNext
      end).
 Proof.
-  intros p Hp. split; [|split; [|split]].
+  intros p Hp. repeat split.
   - intros m k H. apply gen_primaryIndex; auto.
   - intros m k H. apply gen_getSegmentIndex; auto.
-  - intros. apply gen_bshift_run; auto.
+  - intros. apply gen_bsd; auto.
+  - intros. apply gen_evict; auto.
+  - intros. apply gen_del; auto.
   - intros. apply gen_get_run; auto.
 Qed.
 Print Assumptions translated_code_is_model.
 
-(* the translated shift on a concrete cluster: keys 3 homes ... moves what the model moves *)
-Example ex_translated_shift :
-  let d := t_data (tput go_mix (tput go_mix (tput go_mix (new_table 0) 5 1) 13 2) 21 3) in
-  length d = 2 ^ 3 /\ bshift go_mix 8 d 8 0 0 <> None.
-Proof. vm_compute. split; [reflexivity|discriminate]. Qed.
+(* the hypotheses of 15 on a concrete table of the code's own hash: an eviction and a
+   deletion inside a three-key cluster leave the model inside its envelope *)
+Example ex_translated :
+  let t := tput go_mix (tput go_mix (tput go_mix (new_table 0) 5 1) 13 2) 21 3 in
+  length (t_data t) = 2 ^ 3 /\ t_bad (fst (tevict go_mix t 0 2 13)) = false /\ snd (tevict go_mix t 0 2 13) = 2%Z /\
+  t_bad (fst (tdel go_mix t 13)) = false /\ snd (tdel go_mix t 13) = true.
+Proof. vm_compute. repeat split; reflexivity. Qed.
 
 (* The hypotheses are satisfiable by non-trivial states of the code's own hash. *)
 Example ex_wf : WF go_mix (tput go_mix (tput go_mix (new_table 0) 5 1) 13 2).
